@@ -42,7 +42,7 @@ def hsteps(ctx, f, x, n, prec, **options):
                 hextramag = int(ctx.mag(x))
             else:
                 hextramag = 0
-            h = ctx.ldexp(1, -prec-addprec-hextramag)
+            h = ctx.ldexp(1, -prec-addprec+hextramag)
         else:
             h = ctx.convert(h)
         # Directed: steps x, x+h, ... x+n*h
